@@ -86,12 +86,14 @@ fn plan(seed: u64, rng: &mut StdRng, k: usize) -> Plan {
         response: sizes[rng.random_range(0..sizes.len())],
         wchunk: [1usize, 100, 1000, 1472, 16_384, 200_000][rng.random_range(0..6)],
         rbuf: [1usize, 7, 100, 1500, 65_536][rng.random_range(0..5)],
-        client_mode: ["shutdown", "shutdown", "read_first", "drop_after_write"][rng.random_range(0..4)].to_string(),
+        client_mode: ["shutdown", "shutdown", "read_first", "drop_after_write", "late_fin"][rng.random_range(0..5)].to_string(),
         server_mode: ["echo_len", "echo_len", "respond_early", "drop"][rng.random_range(0..if mode == "vanish" { 3 } else { 4 })].to_string(),
         client_fin: ["shutdown", "shutdown", "fin_last", "fin_all"][rng.random_range(0..4)].to_string(),
         server_fin: ["shutdown", "shutdown", "fin_last", "fin_all"][rng.random_range(0..4)].to_string(),
         start_us: i as u64 * [0u64, 1_000, 500_000][rng.random_range(0..3)],
     }).collect::<Vec<_>>();
+    // a client that finishes its request only after it has the whole response needs a server that answers while reading
+    let streams = streams.into_iter().map(|mut s| { if s.client_mode == "late_fin" { s.server_mode = "respond_early".into(); } s }).collect::<Vec<_>>();
     // one-byte chunks on megabyte transfers only cost time
     let streams: Vec<StreamPlan> = streams.into_iter().map(|mut s| { if s.request > 70_000 || s.response > 70_000 { s.wchunk = s.wchunk.max(1000); } if s.response > 70_000 || s.request > 70_000 { s.rbuf = s.rbuf.max(1500); } s }).collect();
     // half of the vanish runs: datagram loss as well, and the server disappears after a number of datagrams that lies
@@ -179,7 +181,7 @@ async fn read_side<R: AsyncReadExt + Unpin>(r: &mut R, pipe: u64, rbuf: usize) -
 
 /// a byte-for-byte TCP relay in front of `upstream` that reads slowly through a minimal receive buffer, so that the
 /// client's kernel accepts only part of each write
-async fn slow_relay(upstream: std::net::SocketAddr) -> std::io::Result<std::net::SocketAddr> {
+async fn slow_relay(upstream: std::net::SocketAddr, cut_after: Option<usize>) -> std::io::Result<std::net::SocketAddr> {
     let socket = tokio::net::TcpSocket::new_v4()?;
     socket.set_recv_buffer_size(1)?;
     socket.bind("127.0.0.1:0".parse().unwrap())?;
@@ -190,12 +192,20 @@ async fn slow_relay(upstream: std::net::SocketAddr) -> std::io::Result<std::net:
         let Ok(up) = tokio::net::TcpStream::connect(upstream).await else { return };
         let (mut down_rx, mut down_tx) = down.into_split();
         let (mut up_rx, mut up_tx) = up.into_split();
-        tokio::spawn(async move { let _ = tokio::io::copy(&mut up_rx, &mut down_tx).await; let _ = down_tx.shutdown().await; });
+        let back = tokio::spawn(async move { let _ = tokio::io::copy(&mut up_rx, &mut down_tx).await; let _ = down_tx.shutdown().await; });
         let mut buf = [0u8; 700];
         let mut total = 0usize;
         loop {
             let n = match down_rx.read(&mut buf).await { Ok(0) | Err(_) => break, Ok(n) => n };
+            let n = match cut_after { Some(c) if total + n >= c => c - total, _ => n };
             if up_tx.write_all(&buf[..n]).await.is_err() { break; }
+            if cut_after.is_some_and(|c| total + n >= c) {
+                // the path dies here: the server sees a clean TCP close in the middle of the stream, the client a reset
+                emit(json!({"ev": "vanished"}));
+                let _ = up_tx.shutdown().await;
+                back.abort();
+                return;
+            }
             total += n;
             if total % 16 == 0 { tokio::time::sleep(Duration::from_micros(50)).await; }
         }
@@ -204,18 +214,20 @@ async fn slow_relay(upstream: std::net::SocketAddr) -> std::io::Result<std::net:
     Ok(addr)
 }
 
-async fn connect_slow(client: &Client, server: &Server) -> std::io::Result<s2n_quic_dc::stream::testing::Stream> {
-    let relay = slow_relay(server.local_addr()).await?;
+async fn connect_slow(client: &Client, server: &Server, cut_after: Option<usize>) -> std::io::Result<s2n_quic_dc::stream::testing::Stream> {
+    let relay = slow_relay(server.local_addr(), cut_after).await?;
     let socket = tokio::net::TcpSocket::new_v4()?;
     socket.set_send_buffer_size(1)?;
     let socket = socket.connect(relay).await?;
     client.connect_tcp_with(server, socket).await
 }
 
-async fn client_stream(client: &Client, addr_sim: bool, server: Option<&Server>, k: u64, sp: StreamPlan, slow: bool) {
+async fn client_stream(client: &Client, addr_sim: bool, server: Option<&Server>, k: u64, sp: StreamPlan, slow: bool, cut: bool) {
+    // real TCP runs through the relay: in "vanish" runs the relay cuts the path somewhere inside the request
+    let cut_after = if slow && cut { Some((sp.request as usize * 2 / 3).max(1000)) } else { None };
     let (req, resp) = (2 * k, 2 * k + 1);
     emit(json!({"ev": "open", "k": k, "req": sp.request, "resp": sp.response, "client_mode": sp.client_mode, "server_mode": sp.server_mode}));
-    let stream = if addr_sim { client.connect_sim("server:443").await } else if slow { connect_slow(client, server.unwrap()).await } else { client.connect_to(server.unwrap()).await };
+    let stream = if addr_sim { client.connect_sim("server:443").await } else if slow { connect_slow(client, server.unwrap(), cut_after).await } else { client.connect_to(server.unwrap()).await };
     let stream = match stream {
         Ok(s) => s,
         Err(e) => { emit(json!({"ev": "connect_err", "k": k, "kind": format!("{:?}", e.kind())})); return; }
@@ -238,6 +250,19 @@ async fn client_stream(client: &Client, addr_sim: bool, server: Option<&Server>,
             let w = async { write_side(&mut send, req, sp.request, sp.wchunk, true, &sp.client_fin).await };
             let r = async { read_side(&mut recv, resp, sp.rbuf).await };
             let _ = tokio::join!(w, r);
+        }
+        "late_fin" => {
+            // the request stays open (written, not finished) while the client waits for the whole response
+            if write_side(&mut send, req, sp.request, sp.wchunk, false, "shutdown").await {
+                let _ = read_side(&mut recv, resp, sp.rbuf).await;
+                emit(json!({"ev": "wfin_start", "pipe": req, "total": sp.request}));
+                match tokio::io::AsyncWriteExt::shutdown(&mut send).await {
+                    Ok(()) => emit(json!({"ev": "wfin", "pipe": req, "total": sp.request})),
+                    Err(e) => emit(json!({"ev": "werr", "pipe": req, "off": sp.request, "kind": format!("{:?}", e.kind())})),
+                }
+            } else {
+                let _ = read_side(&mut recv, resp, sp.rbuf).await;
+            }
         }
         "drop_after_write" => {
             let _ = write_side(&mut send, req, sp.request, sp.wchunk, false, "shutdown").await;
@@ -371,7 +396,7 @@ fn run_sim_here(p: Plan) -> Vec<Value> {
                     let client = client.clone();
                     handles.push(async move {
                         Duration::from_micros(sp.start_us).sleep().await;
-                        client_stream(&client, true, None, k as u64, sp, false).await;
+                        client_stream(&client, true, None, k as u64, sp, false, false).await;
                     });
                 }
                 futures_join_all(handles).await;
@@ -506,9 +531,20 @@ pub fn real_record(args: &[String]) -> Value {
         let slow = k % 4 == 3;
         p.slow_tcp = slow;
         if slow { for s in &mut p.streams { s.request = [65_536u64, 300_000, 600_000][rng.random_range(0..3)]; s.wchunk = s.wchunk.max(1000); } }
+        // every other slow run: the relay closes the path after two thirds of the first request (a peer that vanishes
+        // in the middle of a record); marked by start_us = MAX - 1 on that stream
+        if slow && k % 8 == 7 {
+            p.mode = "vanish".into();
+            p.vanish_after_server_packets = Some(0);
+            p.streams.truncate(1);
+            p.streams[0].start_us = 0;
+            p.streams[0].client_mode = "shutdown".into();
+            p.streams[0].server_mode = "echo_len".into();
+        }
         REAL_EV.lock().unwrap().clear();
         out.emit(json!({"ev": "reset", "transport": if tcp { "tcp" } else { "udp" }, "plan": serde_json::to_value(&p).unwrap()}));
         let streams = p.streams.clone();
+        let cut = slow && p.mode == "vanish";
         let res = rt.block_on(async move {
             tokio::time::timeout(Duration::from_secs(60), async move {
                 let server = if tcp { Server::tcp().build() } else { Server::udp().build() };
@@ -526,15 +562,20 @@ pub fn real_record(args: &[String]) -> Value {
                 for (k, sp) in streams.into_iter().enumerate() {
                     let client = client.clone();
                     let server = server.clone();
-                    hs.push(tokio::spawn(async move { client_stream(&client, false, Some(&server), k as u64, sp, slow).await; }));
+                    hs.push(tokio::spawn(async move { client_stream(&client, false, Some(&server), k as u64, sp, slow, cut).await; }));
                 }
                 for h in hs { let _ = h.await; }
                 // let the server tasks finish reading the ends of the requests
                 tokio::time::sleep(Duration::from_millis(50)).await;
                 let hs: Vec<_> = std::mem::take(&mut *served.lock().unwrap());
-                let deadline = tokio::time::Instant::now() + Duration::from_secs(3);
+                let deadline = tokio::time::Instant::now() + Duration::from_secs(if cut { 10 } else { 3 });
                 for mut h in hs {
-                    if tokio::time::timeout_at(deadline, &mut h).await.is_err() { h.abort(); let _ = h.await; }
+                    if tokio::time::timeout_at(deadline, &mut h).await.is_err() {
+                        // after a TCP path was cut the server's reader must learn of it at once (the socket reports the close)
+                        if cut { emit(json!({"ev": "stall", "what": "a server task is still busy 10 s after its TCP connection was closed"})); }
+                        h.abort();
+                        let _ = tokio::time::timeout(Duration::from_secs(2), h).await;
+                    }
                 }
                 acceptor.abort();
             }).await
